@@ -20,7 +20,7 @@ EXPLANATION = (
     'handler derives state from the rebound field; (d) FieldUpdate payload '
     'def-use; (e) completeness of the ancestor walk.  Exactly-once / ordering '
     'for arbitrary batches is not decided.')
-FLOORS = {'C09.a': 10, 'C09.b': 2, 'C09.c': 2, 'C09.d': 1, 'C09.e': 1, 'C09.f': 4, 'C09.g': 2}
+FLOORS = {'C09.a': 10, 'C09.b': 2, 'C09.c': 2, 'C09.d': 1, 'C09.e': 1, 'C09.f': 4, 'C09.g': 2, 'C09.h': 3}
 FILES = c08.FILES + ['pyglove/ext/evolution/recombinators.py',
                      'pyglove/ext/evolution/mutators.py',
                      'pyglove/core/geno/base.py', 'pyglove/core/geno/categorical.py']
@@ -601,6 +601,31 @@ def rule_g(ctx):
          f.loc, 'the override test against Object._on_change is gone')
 
 
+def rule_h(ctx):
+  """Events name locations by the path the changed node reports.  A list child
+  must therefore report its real position after every positional shift,
+  whether or not notifications were enabled at the time of the shift (the shift
+  may happen in a notifications-disabled scope and the next event come later).
+  These are the re-index obligations of C01.c / C01.g and the loop-coverage
+  obligations of C01.f for the list, judged here for C09."""
+  from sa.rules import c01
+  import io
+  sub = type(ctx)(ctx.index, 'C01')
+  raws = c01.rule_m2(sub)
+  c01.rule_c(sub, raws)
+  c01.rule_f(sub)
+  c01.rule_g(sub)
+  n = 0
+  for o in sub.obs:
+    if o.info:
+      continue
+    if o.rule in ('C01.c', 'C01.g') or (o.rule == 'C01.f' and ('#loop@' in o.construct and '.list.' in o.construct)):
+      n += 1
+      ctx.ob('C09.h', o.construct, o.ok, o.what + ' (so that later events name the right location)', o.loc, o.detail, o.witness)
+  if n < 3:
+    raise AnalysisError('re-index obligations not found')
+
+
 def run(ctx):
   ctx.consult(*FILES)
   rule_a(ctx)
@@ -610,4 +635,5 @@ def run(ctx):
   rule_e(ctx)
   rule_f(ctx)
   rule_g(ctx)
+  rule_h(ctx)
   ctx.assume('handlers of user classes outside the repository are out of scope')
